@@ -5,11 +5,13 @@ an input may have without skipping its consumer; the operator that accumulates `
 comparison operators of `canUpdateIfNewerWithResult` (strict / non-strict); the engine call used for each class
 of inputs in `start()` (request vs mustFollow); the guards of `buildCommandIsResultValid` in source order; the
 condition that disables the update-if-newer shortcut; the order of the decisions in `inputsAvailable`; the
-polarity of ForceChange on success; the key under which input rules are registered.  Fails closed."""
+polarity of ForceChange on success; the key under which input rules are registered; the signature that
+`NinjaBuildCommandRule` hands to `core::Rule` (none, or the statement's input lists by class - F56).  Fails closed."""
 import re
 from xcommon import *
 
 REL = "lib/Commands/NinjaBuildCommand.cpp"
+ENGINE_REL = "lib/Core/BuildEngine.cpp"
 KNOWN_KINDS = ["ExistingInput", "MissingInput", "SuccessfulCommand", "FailedCommand", "SkippedCommand"]
 CMP = {"<": "lt", "<=": "le", ">": "gt", ">=": "ge"}
 
@@ -220,6 +222,55 @@ def run():
         raise ExtractError("NinjaInputRule key expression: " + keyexpr)
     if not re.search(r"ninja::Node\s*\*\s*node\s*=\s*context->manifest->findOrCreateNode\(workingDirectory\s*,\s*key\.str\(\)\)", src):
         raise ExtractError("lookupRule: node lookup")
+    # 10 signature of a command rule (F56)
+    rule_cls = re.search(r"class\s+NinjaBuildCommandRule\s*:\s*public\s+core::Rule\s*\{", src)
+    if not rule_cls:
+        raise ExtractError("class NinjaBuildCommandRule")
+    cls_body, _ = find_block(src, rule_cls.end() - 1)
+    used.append(cls_body)
+    m = re.search(r"NinjaBuildCommandRule\s*\(\s*const\s+core::KeyType\s*&\s*key\s*,\s*BuildContext\s*&\s*context\s*,\s*"
+                  r"ninja::Command\s*\*\s*command\s*\)\s*:\s*core::Rule\((.*?)\)\s*,\s*context\(context\)", cls_body, re.S)
+    if not m:
+        raise ExtractError("NinjaBuildCommandRule constructor")
+    base_args = nows(m.group(1))
+    if base_args == "key":
+        sig_fields = []
+    elif base_args == "key,inputsSignature(command)":
+        sb = nows(function_body(cls_body, r"static\s+basic::CommandSignature\s+inputsSignature\s*\(\s*ninja::Command\s*\*\s*command\s*\)"))
+        mm = re.fullmatch(r'basic::CommandSignaturesig\("[^"]*"\);(.*)returnsig;', sb)
+        if not mm:
+            raise ExtractError("inputsSignature: unexpected body")
+        rest, sig_fields = mm.group(1), []
+        table = [("sig.combine(command->getNumExplicitInputs());", "numExplicit"),
+                 ("sig.combine(command->getNumImplicitInputs());", "numImplicit"),
+                 ("for(constauto*input:command->getInputs())sig.combine(input->getCanonicalPath());", "inputPaths")]
+        while rest:
+            for text, name in table:
+                if rest.startswith(text):
+                    sig_fields.append(name)
+                    rest = rest[len(text):]
+                    break
+            else:
+                raise ExtractError("inputsSignature: unknown statement: " + rest[:100])
+        # the model knows two shapes: no signature, or counts of the explicit and implicit inputs + every path in order
+        if sig_fields != ["numExplicit", "numImplicit", "inputPaths"]:
+            raise ExtractError("inputsSignature: fields %s (the model covers [] and [numExplicit, numImplicit, inputPaths])" % sig_fields)
+    else:
+        raise ExtractError("NinjaBuildCommandRule: base initialiser core::Rule(%s)" % base_args)
+    # the engine side (lib/Core/BuildEngine.cpp), as the world model has it: the scan tests never-built, then the signature,
+    # then isResultValid; the prior value is handed over only under an equal signature; taskIsComplete stores the rule's
+    # signature and compares the new value with the stored one whatever its signature was.  Fails closed on another shape.
+    eng = nows(strip_comments(read(ENGINE_REL)))
+    i1 = eng.find("if(ruleInfo.result.builtAt==0){")
+    i2 = eng.find("if(ruleInfo.rule->signature!=ruleInfo.result.signature){")
+    i3 = eng.find("if(!ruleInfo.rule->isResultValid(buildEngine,ruleInfo.result.value)){")
+    if not (0 <= i1 < i2 < i3):
+        raise ExtractError("BuildEngine scan: order of the never-built / signature / validity tests")
+    if "if(ruleInfo.result.builtAt!=0&&ruleInfo.rule->signature==ruleInfo.result.signature){" not in eng:
+        raise ExtractError("BuildEngine: condition for providing the prior value")
+    if "ruleInfo->result.signature=ruleInfo->rule->signature;if(!forceChange&&value==ruleInfo->result.value){" not in eng:
+        raise ExtractError("BuildEngine taskIsComplete: signature update / value comparison")
+    engine_used = [eng[i1:i1 + 40], eng[i2:i2 + 60], eng[i3:i3 + 80]]
     b = lambda x: "true" if x else "false"
     L = ["namespace LLBuild.NinjaBuild.Gen", "",
          "/-- `BuildValue::BuildValueKind` -/",
@@ -230,6 +281,8 @@ def run():
          "inductive ReqKind | request | mustFollow | requestSingleUse", "  deriving DecidableEq, Repr", "",
          "inductive Guard | notSuccessful | hashDiffersUnlessGenerator | hashDiffers | outputMissing | outputMissingUnlessAlias | outputInfoDiffers",
          "  deriving DecidableEq, Repr", "",
+         "/-- what `NinjaBuildCommandRule::inputsSignature` combines -/",
+         "inductive SigField | numExplicit | numImplicit | inputPaths", "  deriving DecidableEq, Repr", "",
          "inductive Decision | cancelled | phony | updateIfNewer | simulate | skip | run", "  deriving DecidableEq, Repr", "",
          "/-- `provideValue`: kinds of an input value that do NOT make the consumer skip -/",
          "def okInputKinds : List Kind := [%s]" % ", ".join("." + lc(k) for k in ok_kinds),
@@ -263,9 +316,11 @@ def run():
          "/-- guards of `buildCommandIsResultValid` in source order (each one returns false) -/",
          "def validGuards : List Guard := [%s]" % ", ".join("." + g for g in guards),
          "/-- input rules are registered under the key they are requested (and stored) under -/",
-         "def inputRuleKeyIsRequestedKey : Bool := %s" % b(input_key_requested), "",
+         "def inputRuleKeyIsRequestedKey : Bool := %s" % b(input_key_requested),
+         "/-- the signature `NinjaBuildCommandRule` hands to `core::Rule` ([] = none: `core::Rule(key)`) (F56) -/",
+         "def ruleSignatureFields : List SigField := [%s]" % ", ".join("." + f for f in sig_fields), "",
          "end LLBuild.NinjaBuild.Gen"]
-    return write_generated("NinjaBuildTables", "\n".join(L) + "\n", [(REL, "\n".join(used))])
+    return write_generated("NinjaBuildTables", "\n".join(L) + "\n", [(REL, "\n".join(used)), (ENGINE_REL, "\n".join(engine_used))])
 
 
 if __name__ == "__main__":
